@@ -128,6 +128,21 @@ _a = SMALL2_TMPL.index(" (a) a new optional parameter")
 _b = SMALL2_TMPL.index("Keep the code clean and plausible (Python 3.12); no comments that announce")
 SMALL2_TMPL = SMALL2_TMPL[:_a] + SMALL2_KINDS + "\n" + SMALL2_TMPL[_b:]
 
+AUDIT_TMPL = '''You are auditing a Python library against ONE stated property. Work ONLY inside the git worktree {wt} (a checkout of the optical-communications simulation library "opticomlib"). Do not read or write anything under /verif or /repo. Do NOT modify the library or its tests.
+
+The property:
+
+ID: {id}
+TITLE: {title}
+STATEMENT: {statement}
+QUANTIFIED OVER: {quant}
+
+Your job: find inputs INSIDE the quantified domain for which the CURRENT code violates a clause of the statement - genuine defects, not disagreements about wording. Read the relevant source in {wt}/opticomlib/ first, list the clauses, and for every clause think about the CORNERS of the quantified domain where code usually breaks: the smallest and largest sizes, length 1 / 2 / odd lengths, a count or lag or delay of exactly 0, the first and the last element, exact equality at a boundary, a parameter at the inclusive end of its range, one vs two polarisations, noise present vs absent, every accepted container type, every letter case of an option, repeated calls / call order, values that make a slice bound 0 (x[:-0] is empty), integer vs float arguments, numpy scalars vs python scalars. Then write {wt}/audit_{id}.py: a script that exercises every clause over many sampled AND systematically enumerated corner inputs (fixed seeds, exact comparison where the statement is exact, the stated tolerance otherwise), prints one line per violated (clause, input) and exits 1 if any clause is violated, prints PASS and exits 0 otherwise. It must import `opticomlib` from PYTHONPATH (delete the script's own directory from sys.path[0] first). Run it: cd {wt} && MPLBACKEND=Agg OMP_NUM_THREADS=1 PYTHONPATH={wt} timeout 900 /venv/bin/python audit_{id}.py
+
+For every violation you find: make sure it is inside the quantified domain as written (quote the words of the quantifier that cover it), reduce it to a minimal reproduction {wt}/finding_{id}_k.py (k = 1, 2, ...; 5-20 lines; exits 1 and prints what was expected and what came out), and say in one paragraph which line(s) of the library cause it and what a minimal fix would be (do not apply it). A statistical clause counts as violated only if it fails far outside sampling error (say 6 sigma) for several seeds. If you find nothing after a thorough search, say so - that is a perfectly good outcome; do not stretch the statement.
+
+Reply with: the list of clauses you checked and how, then the findings (or "no findings"), each with its finding_{id}_k.py path, the cause and the suggested fix. Never call devices.FIBER without a `timeout` wrapper and small inputs.{extra}'''
+
 NEUTRAL_TMPL = '''You are helping test a static-analysis tool for false alarms. Work ONLY inside the git worktree {wt} (a checkout of the Python library "opticomlib"). Do not read or write anything under /verif or /repo.
 
 Your job: REFACTOR the following functions WITHOUT changing their behaviour in any way: in {file}: {funcs}.
@@ -182,6 +197,12 @@ def main():
             worktree(wt)
             txt = "\n\n".join(f"[{pid}] {props[pid]['title']}\nSTATEMENT: {props[pid]['statement']}\nQUANTIFIED OVER: {props[pid]['quantifier']['text']}" for pid in GROUP_PROPS[g])
             open(f'{d}/prompt_{g}.txt', 'w').write(SMALL_TMPL.format(wt=wt, file=f, funcs=fu, props=txt, extra=LAB_NOTE if g == "lab" else ""))
+    elif kind == "audit":
+        props = {json.loads(l)['id']: json.loads(l) for l in open('/verif/properties.jsonl')}
+        for pid, pr in props.items():
+            wt = f'{d}/{pid}'
+            worktree(wt)
+            open(f'{d}/prompt_{pid}.txt', 'w').write(AUDIT_TMPL.format(wt=wt, id=pid, title=pr['title'], statement=pr['statement'], quant=pr['quantifier']['text'], extra=LAB_NOTE if pid == "C20" else ""))
     elif kind == "small2":
         props = {json.loads(l)['id']: json.loads(l) for l in open('/verif/properties.jsonl')}
         for g, (f, fu) in GROUPS.items():
